@@ -7,12 +7,14 @@ import DL.Props.C12Fuel
 
 `DL/Model/RegexSpecB.lean` is the pattern grammar for `[~UnicodeMode]` with the replacements of Annex B.1.2, over the
 UTF-16 code units of the pattern, with the parameter `[NamedCaptureGroups]` (`nf`) and *ParsePattern*'s two passes.
+B.1.2 makes the grammar ambiguous and resolves it by ordered choice ("each alternative is considered only if previous
+production alternatives do not match"); the grammar carries the corresponding side conditions (marked
+"ordered choice" there; regression of that correction: `C12SpecBGap`).
 
 **Proved**: if `validate_pattern(source, u_flag = false)` returns `Ok`, the pattern is valid according to that grammar
 (`ValidPatternWith qokModel`: the `[~N]` parse exists, and the `[+N]` parse too if the pattern has a named group),
 with `{lo,hi}` compared after saturation at `i64::MAX` as in Unicode mode.
-**Not proved**: completeness without the `u` flag (the Annex B grammar is ambiguous — `\x41` is a hex escape and
-also an identity escape followed by `41` — so it needs a different argument from the one for Unicode mode).
+The converse (completeness without the `u` flag) is `C12CompleteB`.
 -/
 namespace DL.Props.C12
 open DL.Rx DL.RxSpec
@@ -26,8 +28,8 @@ theorem DerivesB.mono {nf : Bool} {q q' : Nat → Nat → Prop} (hq : ∀ lo hi,
   | altSnoc i m r a₁ a₂ _ _ ih1 ih2 => exact .altSnoc i m r a₁ a₂ ih1 ih2
   | termQAssertionQuantified i m r a _ hqq ih => exact .termQAssertionQuantified i m r a ih (Quantifier.mono hq hqq)
   | termAssertion i r a _ ih => exact .termAssertion i r a ih
-  | termAtomQuantified i m r a _ hqq ih => exact .termAtomQuantified i m r a ih (Quantifier.mono hq hqq)
-  | termAtom i r a _ ih => exact .termAtom i r a ih
+  | termAtomQuantified i m r a _ hqq hw ih => exact .termAtomQuantified i m r a ih (Quantifier.mono hq hqq) hw
+  | termAtom i r a _ hw ih => exact .termAtom i r a ih hw
   | caret r => exact .caret r
   | dollar r => exact .dollar r
   | wordBoundary r => exact .wordBoundary r
@@ -39,7 +41,7 @@ theorem DerivesB.mono {nf : Bool} {q q' : Nat → Nat → Prop} (hq : ∀ lo hi,
   | negativeLookahead i m r a hl _ ih => exact .negativeLookahead i m r a hl ih
   | dot r => exact .dot r
   | atomEscape m r a h => exact .atomEscape m r a h
-  | backslashC r => exact .backslashC r
+  | backslashC r h => exact .backslashC r h
   | characterClass i r h => exact .characterClass i r h
   | group m₁ m₂ r name a hg _ ih => exact .group m₁ m₂ r name a hg ih
   | nonCapturing i m r a hl _ ih => exact .nonCapturing i m r a hl ih
